@@ -388,6 +388,53 @@ static void run(Ctx& c) {
   }
 }
 
+// ---- C10 on the sending side: a writer fault while the request is being sent ------------------
+// SendMethod must return exactly the writer's error, stop, and never go on to read a reply.
+using FaultSer = nop::Serializer<InstrWriter<HW<nop::BufferWriter>>>;
+using FaultSender = nop::SimpleMethodSender<FaultSer, CliDes>;
+
+template <typename Ret, typename ArgsTuple>
+void send_faults(Ctx& c, Rng& rng, const char* what, std::uint64_t selector_value, const ArgsTuple& args) {
+  static const nop::ErrorStatus errs[] = {nop::ErrorStatus::IOError, nop::ErrorStatus::WriteLimitReached, nop::ErrorStatus::SystemError,
+                                          nop::ErrorStatus::StreamError, nop::ErrorStatus::ProtocolError};
+  std::size_t ncalls = 0;
+  for (long long k = -1; k == -1 || static_cast<std::size_t>(k) < ncalls; k++) {
+    std::vector<std::uint8_t> buf(1 << 16);
+    HandleOut co;
+    HW<nop::BufferWriter> base{buf.data(), buf.size()}; base.chan = &co;
+    WTrace t; t.fault_at = k;
+    const nop::ErrorStatus e = errs[rng.below(sizeof(errs) / sizeof(errs[0]))];
+    t.fault_err = e;
+    FaultSer ser{base, &t};
+    CliDes des;
+    bool reply_read = false;
+    std::function<std::vector<std::uint8_t>()> pump = [&]() { reply_read = true; return std::vector<std::uint8_t>{}; };
+    des.reader().pump = &pump;
+    FaultSender sender{&ser, &des};
+    nop::Status<Ret> ret;
+    sender.SendMethod(selector_value, &ret, args);
+    if (k < 0) { ncalls = t.calls; continue; }    // the clean run: how many writer calls a request makes
+    c.stat("rpc send faults");
+    if (ret || ret.error() != e || t.calls_after_failure != 0 || reply_read)
+      c.line('X', std::string("C10 rpc-send-fault method=") + what + " call=" + std::to_string(k) + " of=" + std::to_string(ncalls) +
+                      " injected=" + status_name(e) + " returned=" + (ret ? "ok" : status_name(ret.error())) +
+                      " calls-after=" + std::to_string(t.calls_after_failure) + " reply-read=" + (reply_read ? "yes" : "no"));
+  }
+}
+
+static void run_faults(Ctx& c) {
+  Rng rng(c.seed * 1000003ULL + 10);
+  const int rounds = c.thorough ? 40 : 4;
+  for (int r = 0; r < rounds; r++) {
+    { ArgsT<0> a{}; fill(rng, a, 0); send_faults<RetT<0>>(c, rng, "value-returning (i32,i32)->i64", selector<0>(), a); }
+    { ArgsT<2> a{}; fill(rng, a, 0); send_faults<RetT<2>>(c, rng, "value-returning (vector,string)->vector", selector<2>(), a); }
+    { ArgsT<4> a{}; fill(rng, a, 0); send_faults<RetT<4>>(c, rng, "value-returning (struct,optional)->struct", selector<4>(), a); }
+    // a method without a return value: the Status<void> slot
+    { ArgsT<1> a{}; fill(rng, a, 0); send_faults<void>(c, rng, "void-returning (string)", 77, a); }
+    { ArgsT<8> a{}; fill(rng, a, 0); send_faults<void>(c, rng, "void-returning (pair,array)", 78, a); }
+  }
+}
+
 }  // namespace rpc
 
 int main(int argc, char** argv) {
@@ -401,7 +448,7 @@ int main(int argc, char** argv) {
     else if ((a == "--shard" || a == "--nshard") && i + 1 < argc) { if (a == "--shard") c.seed += 1000 * static_cast<std::uint64_t>(std::atoi(argv[i + 1])); ++i; }
     else { std::fprintf(stderr, "bad arg %s\n", a.c_str()); return 2; }
   }
-  rpc::run(c);
+  if (c.mode == "rpcfault") rpc::run_faults(c); else rpc::run(c);
   for (auto& kv : c.stats) c.line('S', kv.first + " " + std::to_string(kv.second));
   c.flush();
   return 0;
